@@ -489,7 +489,10 @@ func extractMetastore(repo string) (map[string]string, error) {
 	o.list("sqlLoadAssigns", e.l(msAssigns(sq, "SQLMetastore.Load")))
 	o.list("sqlStoreAssigns", e.l(msAssigns(sq, "SQLMetastore.Store")))
 	o.list("sqlWithDBTypeSkeleton", e.l(msSkeleton(sq, "WithSQLMetastoreDBType")))
-	o.pairs("sqlNewFields", func() [][2]string { f, _, err := msCompositeFields(sq, "NewSQLMetastore", "SQLMetastore"); return e.p(f, err) }())
+	o.pairs("sqlNewFields", func() [][2]string {
+		f, _, err := msCompositeFields(sq, "NewSQLMetastore", "SQLMetastore")
+		return e.p(f, err)
+	}())
 	o.list("sqlNewSkeleton", e.l(msSkeleton(sq, "NewSQLMetastore")))
 	o.list("sqlParseEnvelopeSkeleton", e.l(msSkeleton(sq, "parseEnvelope")))
 	o.list("sqlParseEnvelopeReturns", e.l(msReturns(sq, "parseEnvelope")))
@@ -506,11 +509,10 @@ func extractMetastore(repo string) (map[string]string, error) {
 		ns, recv                string
 		f                       *goast.File
 		get, put, query, decode string
-		getCall                 string
 	}
 	for _, d := range []ddb{
-		{"V1", "DynamoDBMetastore", d1, "dynamodb.GetItemInput", "dynamodb.PutItemInput", "dynamodb.QueryInput", "parseResult", ""},
-		{"V2", "Metastore", d2, "dynamodb.GetItemInput", "dynamodb.PutItemInput", "dynamodb.QueryInput", "decodeItem", ""},
+		{"V1", "DynamoDBMetastore", d1, "dynamodb.GetItemInput", "dynamodb.PutItemInput", "dynamodb.QueryInput", "parseResult"},
+		{"V2", "Metastore", d2, "dynamodb.GetItemInput", "dynamodb.PutItemInput", "dynamodb.QueryInput", "decodeItem"},
 	} {
 		fmt.Fprintf(&o.b, "namespace %s\n", d.ns)
 		o.str("partitionKey", e.s(msConst(d.f, "partitionKey")))
@@ -547,14 +549,20 @@ func extractMetastore(repo string) (map[string]string, error) {
 		o.list("withTableNameSkeleton", e.l(msSkeleton(d.f, "WithTableName")))
 		if d.ns == "V1" {
 			o.pairs("envelopeJsonTags", e.p(d.f.StructTags("DynamoDBEnvelope", "json")))
-			o.pairs("envelopeFields", func() [][2]string { f, _, err := msCompositeFields(d.f, d.recv+".Store", "DynamoDBEnvelope"); return e.p(f, err) }())
+			o.pairs("envelopeFields", func() [][2]string {
+				f, _, err := msCompositeFields(d.f, d.recv+".Store", "DynamoDBEnvelope")
+				return e.p(f, err)
+			}())
 			o.list("regionSuffixSkeleton", e.l(msSkeleton(d.f, "WithDynamoDBRegionSuffix")))
 			o.list("newSkeleton", e.l(msSkeleton(d.f, "NewDynamoDBMetastore")))
 		} else {
 			o.pairs("itemTags", e.p(d.f.StructTags("metastoreItem", "dynamodbav")))
 			o.pairs("envelopeTags", e.p(d.f.StructTags("envelope", "dynamodbav")))
 			o.pairs("keyMetaTags", e.p(d.f.StructTags("keyMeta", "dynamodbav")))
-			o.pairs("envelopeFields", func() [][2]string { f, _, err := msCompositeFields(d.f, d.recv+".Store", "envelope"); return e.p(f, err) }())
+			o.pairs("envelopeFields", func() [][2]string {
+				f, _, err := msCompositeFields(d.f, d.recv+".Store", "envelope")
+				return e.p(f, err)
+			}())
 			o.pairs("decodeRecordFields", func() [][2]string {
 				f, _, err := msCompositeFields(d.f, "decodeItem", "appencryption.EnvelopeKeyRecord")
 				return e.p(f, err)
